@@ -20,6 +20,10 @@ T_SPLINE = {"type": "spline", "zeta_knots_mm": [-291.7, -5.167, 168.3, 1000], "K
             "minimum_transmissivity_m2_d": 7.442}
 
 
+SY_PEATCLSM = {"type": "peatclsm", "sd": 0.162, "theta_s": 0.88, "b": 7.4, "psi_s": -0.024}
+T_PEATCLSM = {"type": "peatclsm", "Ksmacz0": 7.3, "alpha": 3, "zeta_max_cm": 1.0}
+
+
 def _mods(repo):
     if repo not in sys.path:
         sys.path.insert(0, repo)
@@ -229,7 +233,43 @@ def run_C18(repo, tier, seed):
                 failures.append({"key": "vector", "input": case, "observed": "observations-only output differs from the table's simulated column"})
             if abs(np.mean([r[2] for r in body]) - np.mean([t for _, t in meas])) > 1e-9:
                 failures.append({"key": "table-mean", "input": case, "observed": "mean of simulated != mean of measured"})
-    return {"bound": "%d level grids x 3 (ET, curvature) settings; 3 ET patterns x 2 grid steps through dump_simulated_recession" % len(grids),
+    # command level: the transmissivity handed to compute_recession_curve is in m2/d for every mixture of the two kinds of
+    # specific yield and transmissivity (PEATCLSM transmissivity is m2/s and is converted; the kind of specific yield is
+    # irrelevant) -- compared with a function built independently from the same document
+    class _Captured(Exception):
+        pass
+    con, _, _ = _rec_db(repo, 5.0, lambda i: 0.1)
+    for sy_kind, sy_doc in (("spline", SY_SPLINE), ("peatclsm", SY_PEATCLSM)):
+        for t_kind, t_doc in (("spline", T_SPLINE), ("peatclsm", T_PEATCLSM)):
+            case = {"specific_yield": sy_kind, "transmissivity": t_kind}
+            ev += 1
+            seen = {}
+            orig = m["simulate_recession"].compute_recession_curve
+
+            def spy2(**kw):
+                seen.update(kw)
+                raise _Captured()
+            m["simulate_recession"].compute_recession_curve = spy2
+            try:
+                m["simulate_recession"].simulate_recession(
+                    con, io.StringIO(yaml.dump({"specific_yield": dict(sy_doc), "transmissivity": dict(t_doc)})))
+            except _Captured:
+                pass
+            except Exception as e:
+                failures.append({"key": "raised-mixed", "input": case, "observed": "%s: %s" % (type(e).__name__, e)})
+                continue
+            finally:
+                m["simulate_recession"].compute_recession_curve = orig
+            ref = m["transmissivity"].create_transmissivity_function(dict(t_doc))
+            factor = 86400.0 if t_kind == "peatclsm" else 1.0
+            for z in (-250.0, -60.0, -5.0, 0.0):
+                got, want = float(seen["transmissivity_m2_d"](z)), float(ref(z)) * factor
+                if abs(got - want) > 1e-9 * abs(want):
+                    failures.append({"key": "transmissivity-units", "input": dict(case, zeta_mm=z),
+                                     "observed": "transmissivity used %r m2/d, the parameter document gives %r m2/d" % (got, want)})
+                    break
+    return {"bound": "%d level grids x 3 (ET, curvature) settings; 3 ET patterns x 2 grid steps through dump_simulated_recession; "
+                     "4 mixtures of parameter kinds through simulate_recession" % len(grids),
             "evaluations": ev, "distinct": len(distinct), "exhaustive": False, "failures": _dedupe(failures)[:4], "samples": samples}
 
 
